@@ -35,7 +35,7 @@ CHECKS = {
          "DESIGN.md §4 C04"),
  "C05": ("enum", "model_checking",
          "bounded-exhaustive UNTYPED term enumeration and all registration orders of extra overloads, accept / reject and inferred type compared with an independent reference checker",
-         "All terms of depth <= 1 over 12 atoms × 30 constructors, all depth-2 terms with one nested operand, all single-position type-breaking replacements of the well-typed small-alphabet programs, a variable of each of 16 types in 23 contexts, and five overload families registered in every order (k! for k <= 4) and every subset: the reference checker (syntax-directed, one-way matching, written from the README rules) must agree with types.Infer on accept / reject and on the inferred type, Expr.Compile must agree on two back ends, and no accepted program may raise a type error at run time.",
+         "All terms of depth <= 1 over 12 atoms × 30 constructors, all depth-2 terms with one nested operand, all single-position type-breaking replacements of the well-typed small-alphabet programs, a variable of each of 16 types in 23 contexts, all pairs of five function-typed variables under 8 contexts, and eight overload families (each written with separate and with shared type-variable objects) registered in every order (k! for k <= 4) and every subset: the reference checker (syntax-directed, one-way matching, written from the README rules) must agree with types.Infer on accept / reject and on the inferred type, Expr.Compile must agree on two back ends, and no accepted program may raise a type error at run time.",
          "Trusted: mc/ref/check.go. The ⊥ rules and 'first instantiating poly overload wins' are mirrored as documented in DESIGN.md §7.",
          "DESIGN.md §4 C05"),
  "C06": ("enum", "model_checking",
@@ -57,7 +57,7 @@ CHECKS = {
 
  "C18": ("enum", "model_checking",
          "bounded-exhaustive enumeration of all value pairs per type × all 8 map-iteration seeds, executed on the real equality / rendering / key / set functions",
-         "For 12 types (numbers across the 2^53 and int64 boundaries, strings needing escapes, booleans, instants incl. another zone and sub-second parts, lists, maps built in every insertion order, 3-field objects in all 6 field orders, nested objects, lists of objects, optionals) every ordered pair of values is probed, as raw values and as converted host data, under each of the 8 map-iteration start offsets the runtime can choose: the language's == (on singleton lists), equal String(), equal Key() / isset / get on a map keyed by one of them, and |union| / |intersect| / |diff| of singleton lists must all coincide with structural equality (numbers in the sets are identical or further apart than the tolerance); equality is reflexive on independently built copies and symmetric; the rendering is the same for every seed.",
+         "For 23 types (numbers across the 2^53 and int64 boundaries, strings needing escapes, booleans, instants incl. another zone and sub-second parts, lists, maps built in every insertion order, 3-field objects in all 6 field orders, nested objects, lists of objects, optionals) every ordered pair of values is probed, as raw values and as converted host data, under each of the 8 map-iteration start offsets the runtime can choose: the language's == (on singleton lists), equal String(), equal Key() / isset / get on a map keyed by one of them, and |union| / |intersect| / |diff| of singleton lists must all coincide with structural equality (numbers in the sets are identical or further apart than the tolerance); equality is reflexive on independently built copies and symmetric; the rendering is the same for every seed.",
          "Trusted: mc/ref LangEqual (structural equality by field name). The runtime overlay makes the iteration start offset an input (seeds 1..8 = every order for maps of <= 8 entries).",
          "DESIGN.md §4 C18"),
  "C20": ("enum", "model_checking",
@@ -68,7 +68,7 @@ CHECKS = {
 
  "C10": ("enum", "model_checking",
          "bounded-exhaustive enumeration of sugared terms (every node kind in every operand and callee position) parsed and desugared by the real code, compared with an independently computed core form; sugared vs explicit evaluation",
-         "Structural half: all terms of depth <= 2 over 18 constructors (infix, prefix, ?:, method calls, parentheses, calls, calls of arbitrary callee expressions, subscript, member, literals) are rendered, parsed and desugared: the result must equal the core form computed on the harness's own term (op(x,y), op(x), if(c,a,b), f(o,args), e), contain no sugar node, be a fixpoint of Desugar (spans included), carry the operator columns in source order, and leave the parsed tree (deep snapshot) untouched. Semantic half: every well-typed program of the small-alphabet and effects corpora is evaluated from sugared source and from the explicit core tree built with the ast constructors through Expr.CompileExpr — same outcome, value and host-call trace — plus paired source texts.",
+         "Structural half: all terms of depth <= 2 over 18 constructors (infix, prefix, ?:, method calls, parentheses, calls, calls of arbitrary callee expressions, subscript, member, literals) are rendered, parsed and desugared: the result must equal the core form computed on the harness's own term (op(x,y), op(x), if(c,a,b), f(o,args), e), contain no sugar node, be a fixpoint of Desugar (spans included), carry the operator columns in source order, and leave the parsed tree (deep snapshot) untouched. Semantic half: every well-typed program of the small-alphabet and effects corpora is evaluated from sugared source and from the explicit core tree built with the ast constructors through Expr.CompileExpr — same outcome, value and host-call trace — plus paired source texts, each also on an engine built with UseBuiltIn(false) and the same operators / functions registered by hand, and a callee family (6 x 6 sugar forms inside 8 shapes of computed callees and their arguments).",
          "Trusted: the term renderer and coreString (mc/props/c10.go). Known finding: Desugar is not idempotent on (o.m)(x).",
          "DESIGN.md §4 C10"),
  "C11": ("enum", "model_checking",
@@ -84,7 +84,7 @@ CHECKS = {
 
  "C07": ("enum", "model_checking",
          "bounded-exhaustive enumeration of (compile-time environment, run-time environment) pairs, run-time mutations and invocation histories, each executed on the real Callable and judged by structural type equality plus the reference evaluator",
-         "All pairs of 19 values of 15 types for the binding x, the run-time mutations {x missing, y missing, extra name, y of another type, empty}, 7 representation pairs (raw / host map / host struct in every meaningful combination), 6 programs containing tracers, under the 8 map-iteration seeds, plus every history of <= 3 invocations of one Callable over five environment variants (incl. the same Go type with a nil pointer where the compile-time sample had a value, and the same rejected environment object passed again): the call must be accepted iff every compile-time name is present with a structurally equal type; a rejection must return an error with an EMPTY host-call trace and no panic; an acceptance must produce the reference evaluator's value and trace; each invocation is independent of the history before it.",
+         "All pairs of 19 values of 15 types for the binding x, the run-time mutations {x missing, y missing, extra name, y of another type, empty}, 7 representation pairs (raw / host map / host struct in every meaningful combination), 6 programs containing tracers, under the 8 map-iteration seeds, plus every history of <= 3 invocations of one Callable over five environment variants (incl. the same Go type with a nil pointer where the compile-time sample had a value, and the same rejected environment object passed again; also over ONE raw environment object rebound in place between invocations), plus 13 run-time values of the sample's Go type whose nested elements differ in type, each between two good calls on 4 back ends under 8 seeds: the call must be accepted iff every compile-time name is present with a structurally equal type; a rejection must return an error with an EMPTY host-call trace and no panic; an acceptance must produce the reference evaluator's value and trace; each invocation is independent of the history before it.",
          "Trusted: structural type equality on descriptions (gen.Equal), mc/ref evaluator; host types are those the reference derives from the description (C15 checks the conversion itself).",
          "DESIGN.md §4 C07"),
  "C13": ("enum", "model_checking",
@@ -93,18 +93,18 @@ CHECKS = {
          "No state merging (a state is its history), so no canonicalisation argument is needed. The runtime overlay owns map-iteration order; stdout is captured through a pipe.",
          "DESIGN.md §4 C13"),
  "C14": ("sched", "model_checking",
-         "stateless model checking: a hand-written cooperative scheduler runs the real goroutines and a DFS enumerates all interleavings of the hooked synchronisation points with iterative preemption bounding; vector-clock race detection over hooked accesses; separate free-running go test -race pass of the same thread bodies",
-         "15 scenarios of 2–3 threads (independent engines compiling polymorphic calls; one initialised engine compiling 2–3 expressions; one Callable invoked by three threads on each of the four back ends and with a shared *val.Env; compile while invoking; strtotime on an uncached zone; programs that together call every built-in; inputs no earlier execution has seen; Debug and Eval). Every interleaving of the synchronisation operations (atomic type-variable counter, zone-cache lock / unlock) is executed for preemption bounds 0,1,2,… until a larger bound adds no schedule or the per-scenario schedule cap is hit (reported per scenario); on each execution a vector-clock detector checks every hooked read / write (happens-before from spawn, release→acquire and atomics only) and each thread's outcome must equal its outcome when run alone; a schedule is replayed twice to prove determinism. Then the same bodies run free on plain goroutines under the Go race detector, which sees every memory access, hooked or not.",
+         "stateless model checking: a hand-written cooperative scheduler runs the real goroutines and a DFS enumerates all interleavings of the synchronisation points (hand-placed hooks plus EVERY sync / sync/atomic operation of the repository, routed through scheduling-point shims by a build overlay regenerated from the current sources) with iterative preemption bounding; lock ownership and deadlock are modelled; vector-clock race detection over hooked accesses; separate free-running go test -race pass of the same thread bodies",
+         "15 scenarios of 2–3 threads (independent engines compiling polymorphic calls; one initialised engine compiling 2–3 expressions; one Callable invoked by three threads on each of the four back ends and with a shared *val.Env; compile while invoking; strtotime on an uncached zone; programs that together call every built-in; inputs no earlier execution has seen; Debug and Eval). Every interleaving of the synchronisation operations (every atomic operation and every lock / unlock the code performs: today the type-variable counter and the zone-cache mutex) is executed for preemption bounds 0,1,2,… until a larger bound adds no schedule or the per-scenario schedule cap is hit (reported per scenario); on each execution a vector-clock detector checks every hooked read / write (happens-before from spawn, release→acquire and atomics only) and each thread's outcome must equal its outcome when run alone; a schedule is replayed twice to prove determinism. Then the same bodies run free on plain goroutines under the Go race detector, which sees every memory access, hooked or not.",
          "CHESS reduction (scheduling at synchronisation operations only is complete when the program is data-race free, which both detectors check). Sequential consistency assumed; the C library behind strtotime is opaque. Bounds completed are in the evidence file.",
          "DESIGN.md §4 C14"),
  "C15": ("enum", "model_checking",
          "bounded-exhaustive enumeration of Go types built by reflection × value domains, converted by the real conv package and compared with a reference conversion that works on descriptions (no reflection)",
-         "All Go types of depth <= 3 over 13 leaf kinds and the pointer / slice / array / map / struct constructors (fields untagged, renamed, optional, duplicate names), with all values over 2–3 element leaf domains, nil / non-nil pointers, nil / empty / one / two-element containers and nil / non-nil interfaces: ValOf must succeed iff the description is convertible; the value must be well formed, of the expected type, equal in contents, and ValOf(v).Type ≡ TypeOf(v); TypeEnvOf / ValEnvOf must agree field by field; all stable values (no interface part, nil-able parts non-nil or declared optional) of one Go type must get one type, and an expression compiled against one must accept every other; bad data must be an error, never a panic.",
-         "Trusted: the Go-shape grammar and reference conversion (mc/props/c15shape.go). Nested value domains are bounded (first / middle / last picks). Pointer map keys are outside the alphabet.",
+         "All Go types of depth <= 3 over 13 leaf kinds and the pointer / slice / array / map / struct constructors (fields untagged, renamed, optional, duplicate names), with all values over 2–3 element leaf domains, nil / non-nil pointers, nil / empty / one / two-element containers and nil / non-nil interfaces: ValOf must succeed iff the description is convertible; the value must be well formed, of the expected type, equal in contents, and ValOf(v).Type ≡ TypeOf(v); TypeEnvOf / ValEnvOf must agree field by field; all stable values (no interface part, nil-able parts non-nil or declared optional) of one Go type must get one type, and an expression compiled against one must accept every other; bad data must be an error, never a panic; struct tags written with blanks / mixed case; a number below 1…400 levels of each container kind converts iff the nesting is <= 100.",
+         "Trusted: the Go-shape grammar and reference conversion (mc/props/c15shape.go). Nested value domains are bounded (first / middle / last picks; two-element containers take one representative of every distinct element type). Pointer map keys are outside the alphabet.",
          "DESIGN.md §4 C15"),
  "C16": ("enum", "model_checking",
          "bounded-exhaustive enumeration: every documented overload × every parameter position with an optional argument, direct uses of optionals, mixed-presence host containers, and all well-typed programs over host structs with nil / non-nil fields, judged by the reference checker / evaluator",
-         "For every documented overload and every parameter position, the call with maybe[T] in that position (as variable present / absent, object field, list element, map value) must be accepted exactly when the reference checker accepts it (only a bare type variable or get(maybe[a], a)); 42 direct uses (member, subscript, operators, conditions, nesting, right and wrong defaults) likewise; containers of structs whose pointer field is present in some elements and absent in others must be refused, and one Callable invoked with a present and then an absent pointer of the same Go type must reject the second call; all well-typed programs up to depth 2 over 16 host environments with nil / non-nil, tagged / untagged pointer, slice and map fields must evaluate to the reference value (get yields payload or default) and never fail because of an absence, on four back ends.",
+         "For every documented overload and every parameter position, the call with maybe[T] in that position (as variable present / absent, object field, list element, map value) must be accepted exactly when the reference checker accepts it (only a bare type variable or get(maybe[a], a)); 112 direct uses (member, subscript, operators, conditions, nesting, right and wrong defaults; maps / lists / objects of optionals mixed with the same containers of plain values) likewise; containers of structs whose pointer field is present in some elements and absent in others must be refused, and one Callable invoked with a present and then an absent pointer of the same Go type must reject the second call; all well-typed programs up to depth 2 over 16 host environments with nil / non-nil, tagged / untagged pointer, slice and map fields (4 of them also declared with blank-padded, mixed-case struct tags) must evaluate to the reference value (get yields payload or default) and never fail because of an absence, on four back ends.",
          "Trusted: mc/ref checker and evaluator; the C15 reference conversion for the container family.",
          "DESIGN.md §4 C16"),
  "C19": ("enum", "model_checking",
@@ -114,7 +114,7 @@ CHECKS = {
          "DESIGN.md §4 C19"),
  "C17": ("enum", "model_checking",
          "bounded-exhaustive enumeration of type pairs executed on the real Unify/Equals, judged against an independent matcher and algebraic laws",
-         "Every ordered pair of types up to depth 1 (width 2) over the full constructor alphabet, every same-constructor pair of a reduced depth-2 set, and every pair of argument 2-tuples (tree-shaped and pointer-shared) is run through the real types.Equals / types.Unify in both orders; Equals must coincide with structural identity by field name, and a successful Unify must yield an acyclic substitution that makes both sides equal (relaxed only at the documented ⊥/⊤ positions) and must succeed exactly when the reference one-way matcher finds an instantiation for pattern-vs-ground pairs. Exhaustive within that bound; nothing is sampled.",
+         "Every ordered pair of types up to depth 1 (width 2) over the full constructor alphabet, every same-constructor pair of a reduced depth-2 set, and every pair of argument 2-tuples (tree-shaped and pointer-shared) is run through the real types.Equals / types.Unify in both orders; Equals must coincide with structural identity by field name and give the same answer when repeated on the same two objects, and a successful Unify must yield an acyclic substitution that makes both sides equal (relaxed only at the documented ⊥/⊤ positions) and must succeed exactly when the reference one-way matcher finds an instantiation for pattern-vs-ground pairs. Exhaustive within that bound; nothing is sampled.",
          "Trusted: the harness's own structural equality / matcher (70 lines, mc/props/c17.go), the reading of real types through exported fields. Outside the bound: depth>=3, width>=3, more than two variables.",
          "DESIGN.md §4 C17"),
 }
